@@ -1,5 +1,5 @@
 #!/usr/bin/env python3
-"""usage: tools/seedcheck.py <PROP> [<name>] [--props C02,C11]
+"""usage: tools/seedcheck.py <PROP> [<name>] [--props C02,C11] [--src /tmp/seed2]
 
 Verifies a seeded change written by a sub-agent (files /tmp/seed/<PROP>.patch.diff and
 /tmp/seed/<PROP>.demo_test.go, first line of the demo = "// <package dir>") in a scratch worktree:
@@ -28,6 +28,9 @@ def main():
             extra = sys.argv[sys.argv.index(a) + 1].split(",")
     tag = prop + ("-" + name if name else "")
     src = "/tmp/seed/%s" % tag
+    for a in sys.argv:
+        if a == "--src":  # files are <dir>/<PROP>.patch.diff etc., whatever the name
+            src = os.path.join(sys.argv[sys.argv.index(a) + 1], prop)
     patch = src + ".patch.diff"
     demo = src + ".demo_test.go"
     meta = {"property": prop, "name": tag, "verified_at": time.strftime("%Y-%m-%dT%H:%M:%SZ", time.gmtime())}
